@@ -221,10 +221,12 @@ def check(ctx: Ctx) -> None:
                     exempt = False
                     if callee_attr(c) == "waitfinish" and fi.name in ("_try_send_to_primary_thread", "spawn") and xtext(repo, fi, c.func.value) == MAILBOX:
                         # frozen exemption: back-pressure of main_thread_only is by design
-                        cfg = build_cfg(repo, fi, Oracle(repo, fi, precise=True))
-                        for nd in cfg.node_containing(c):
-                            if any(pol and "main_thread_only" in a for (a, pol, _t) in guard_atoms(cfg, nd.id)):
-                                exempt = True
+                        # (decided on value terms: the backend test may be spelled with a literal or a named constant)
+                        from ..terms import const as _kb, evaluator as _evb, implies as _impb
+                        MT_ = ("cmp", "eq", ("sym", "self.execmodel.backend"), _kb("main_thread_only"))
+                        evb = _evb(repo, fi)
+                        hits = [(st_, e) for (_p, st_) in evb.run(limit=20000) for e in st_.events if e.kind == "call" and e.node is c]
+                        exempt = bool(hits) and all(_impb(st_.cond[:e.ncond], MT_) is True for (st_, e) in hits)
                     if not exempt:
                         ob.violation(fi, c, f"blocking call {norm(c)} while _running_lock is held")
         if not ob.sites:
@@ -364,7 +366,16 @@ def check(ctx: Ctx) -> None:
         rets = [n for n in repo.own_nodes(fg) if isinstance(n, ast.Return)]
         raises = [n for n in repo.own_nodes(fg) if isinstance(n, ast.Raise)]
         ob.site(fg, fg.node, "get returns _result / raises _exc", returns=[norm(r) for r in rets], raises=[norm(r) for r in raises])
-        if [unparse(r.value) for r in rets] != ["self._result"]:
+        from ..terms import evaluator as _evg
+        evg = _evg(repo, fg)
+        nret = 0
+        ret_ok = True
+        for (pth, st_) in evg.run(limit=4000):
+            if pth[-1][0] == evg.cfg.exit.id:
+                nret += 1
+                if st_.ret != ("sym", "self._result"):
+                    ret_ok = False
+        if not ret_ok or nret == 0:
             ob.violation(fg, rets[0] if rets else fg.node, "Reply.get does not return exactly the stored _result")
         if [unparse(r.exc) for r in raises] != ["self._exc"]:
             ob.violation(fg, raises[0] if raises else fg.node, "Reply.get does not re-raise exactly the stored exception")
@@ -510,7 +521,10 @@ def check(ctx: Ctx) -> None:
     with ctx.obligation("C09.i", "timeout-pure") as ob:
         fwf = repo.func("gateway_base.Reply.waitfinish")
         for f in (fwf, repo.func("gateway_base.Reply.get")):
-            stores = [n for n in repo.own_nodes(f) if isinstance(n, (ast.Assign, ast.AugAssign, ast.Delete))]
+            def _local_only(n):
+                tg = n.targets if isinstance(n, (ast.Assign, ast.Delete)) else [n.target]
+                return all(isinstance(t, ast.Name) for t in tg)   # a local of the call: no state of the reply/task
+            stores = [n for n in repo.own_nodes(f) if isinstance(n, (ast.Assign, ast.AugAssign, ast.Delete)) and not _local_only(n)]
             bad_calls = [c for c in repo.calls_in(f) if callee_attr(c) not in ("wait", "waitfinish", "OSError")]
             ob.site(f, f.node, "no state written, only wait/raise", stores=len(stores))
             for n in stores:
